@@ -203,6 +203,8 @@ Partially_Reduced_Product<D1, D2, R>
   reduce();
   d1.unconstrain(var);
   d2.unconstrain(var);
+  // The projections of two reduced components need not be reduced.
+  clear_reduced_flag();
 }
 
 template <typename D1, typename D2, typename R>
@@ -211,6 +213,8 @@ Partially_Reduced_Product<D1, D2, R>::unconstrain(const Variables_Set& vars) {
   reduce();
   d1.unconstrain(vars);
   d2.unconstrain(vars);
+  // The projections of two reduced components need not be reduced.
+  clear_reduced_flag();
 }
 
 template <typename D1, typename D2, typename R>
@@ -611,6 +615,8 @@ Partially_Reduced_Product<D1, D2, R>
 ::remove_space_dimensions(const Variables_Set& vars) {
   d1.remove_space_dimensions(vars);
   d2.remove_space_dimensions(vars);
+  // The projections of two reduced components need not be reduced.
+  clear_reduced_flag();
 }
 
 template <typename D1, typename D2, typename R>
@@ -619,6 +625,8 @@ Partially_Reduced_Product<D1, D2, R>
 ::remove_higher_space_dimensions(dimension_type new_dimension) {
   d1.remove_higher_space_dimensions(new_dimension);
   d2.remove_higher_space_dimensions(new_dimension);
+  // The projections of two reduced components need not be reduced.
+  clear_reduced_flag();
 }
 
 template <typename D1, typename D2, typename R>
@@ -628,6 +636,9 @@ Partially_Reduced_Product<D1, D2, R>
 ::map_space_dimensions(const Partial_Function& pfunc) {
   d1.map_space_dimensions(pfunc);
   d2.map_space_dimensions(pfunc);
+  // A partial function projects away the unmapped dimensions:
+  // the projections of two reduced components need not be reduced.
+  clear_reduced_flag();
 }
 
 template <typename D1, typename D2, typename R>
@@ -645,6 +656,8 @@ Partially_Reduced_Product<D1, D2, R>
                         Variable dest) {
   d1.fold_space_dimensions(vars, dest);
   d2.fold_space_dimensions(vars, dest);
+  // Folding projects and joins: the result need not be reduced.
+  clear_reduced_flag();
 }
 
 template <typename D1, typename D2, typename R>
